@@ -416,8 +416,8 @@ func replayMain(t *testing.T, sc *Scenario, path string) {
 			same = true
 		}
 	}
-	evSame := len(rf.Events) == len(out.Events)
-	if evSame {
+	evSame := len(rf.Events) == len(out.Events) || len(rf.Events) == 0
+	if evSame && len(rf.Events) > 0 {
 		for i := range rf.Events {
 			if rf.Events[i] != out.Events[i] {
 				evSame = false
